@@ -16,7 +16,8 @@ RULE = ("lists of 1..5 pipelines with arbitrary priorities (incl. equal), 0..2 t
         "items, 0..2 finalizers and 0..2 variables each; x every bracketing shape of '+' (random) / every permutation of the "
         "resolver's argument list (random, resolved twice on the same objects) / backend+user+format; distinct = distinct "
         "(pipelines, operation); non-trivial = >= 2 pipelines with >= 2 markers in total"
-        "; resolver specs differ from declared names (duplicates allowed); marker items gated by state their own pipeline sets (named conditions + expression / list form); backend converted with another output format first")
+        "; resolver specs differ from declared names (duplicates allowed); marker items gated by state their own pipeline sets (named conditions + expression / list form); backend converted with another output format first"
+        "; every composed pipeline also converts an empty collection (finalizers run once on the empty list)")
 ASSUMPTIONS = [
     "order is observed through markers (field-name suffixes, query wrappers, output wrappers); Jinja2 renders the finalizer templates",
     "pipeline names are distinct within a list; name order is Python string order",
